@@ -103,13 +103,18 @@ func C19(p *ir.Program, r *report.R) {
 			}
 			if why, ok := exempt[b]; ok {
 				// prefixDB: the key must go through prefixed()
-				pk := false
-				for _, call := range calls {
-					if ir.CalleeName(call) == "db.prefixDB.prefixed" && Arg(call, 1) == "key" {
-						pk = true
+				// (whatever the prefixing function is called: what reaches the wrapped store is prefix ++ key)
+				pk, nPrim := true, 0
+				for _, call := range ir.Calls(fn, "db.DB."+m) {
+					if len(call.Common().Args) == 0 {
+						continue
+					}
+					nPrim++
+					if !prefixPlusKey(call.Common().Args[0], "pdb.prefix") {
+						pk = false
 					}
 				}
-				r.Check("K5", "normalise/"+b+"."+m+"/key", p.Pos(fn.Pos()), pk, "exempt from nonNilBytes ("+why+"); instead the key goes through prefixed(key)")
+				r.Check("K5", "normalise/"+b+"."+m+"/key", p.Pos(fn.Pos()), pk && nPrim > 0, "exempt from nonNilBytes ("+why+"); instead the key handed to the wrapped store is prefix ++ key")
 				continue
 			}
 			r.Check("K5", "normalise/"+b+"."+m+"/key", p.Pos(fn.Pos()), normKey, "the key is normalised with nonNilBytes before the primitive (directly or in the sibling/helper it delegates to), as in the sibling backends")
@@ -340,21 +345,14 @@ func C19(p *ir.Program, r *report.R) {
 			fn := p.Func("libs/db", "prefixBatch."+m)
 			ok := false
 			for _, call := range ir.Calls(fn, "db.Batch."+m) {
-				if strings.Contains(Arg(call, 1), "pb.prefix") && strings.Contains(Arg(call, 1), "key") {
+				if len(call.Common().Args) > 0 && prefixPlusKey(call.Common().Args[0], "pb.prefix") {
 					ok = true
 				}
 			}
 			r.Check("K5", "db.prefixBatch."+m+"/prefixed-key", p.Pos(fn.Pos()), ok, "batch keys of a prefixed view carry the prefix")
 		}
-		pf := p.Func("libs/db", "prefixDB.prefixed")
-		okP := false
-		for _, rt := range ir.Returns(pf) {
-			s := ir.Render(rt.Results[0])
-			if strings.HasPrefix(s, "append(") && strings.Contains(s, "pdb.prefix") && strings.Contains(s, "key") {
-				okP = true
-			}
-		}
-		r.Check("K5", "db.(*prefixDB).prefixed/prefix++key", p.Pos(pf.Pos()), okP, "prefixed(key) = prefix ++ key")
+		// (that prefixed(key) = prefix ++ key is decided at every site that hands a key to the wrapped store:
+		// normalise/prefixDB.*/key above)
 	}
 	_ = c
 
@@ -510,6 +508,56 @@ func C19(p *ir.Program, r *report.R) {
 		r.Check("K5", "iterator-source/sites", "-", n >= 6, fmt.Sprintf("%d backend iterator creations inspected (confirmed by hand: 3 + 3)", n))
 	}
 
+	// ---- Reset empties a batch completely --------------------------------------------------------------------
+	// Every batch counts what it queued in `size` (bolt flushes by itself when the count reaches its
+	// maximum). Reset starts the batch over: it zeroes the counter in every backend, or a reused batch
+	// object flushes part of a LATER batch on its own, before Write and even if that batch is abandoned.
+	{
+		n := 0
+		for _, bt := range []string{"memBatch", "goLevelDBBatch", "boltBatch", "badgerBatch"} {
+			fn := p.TryFunc("libs/db", bt+".Reset")
+			if fn == nil {
+				continue
+			}
+			n++
+			zero := false
+			for _, s := range p.Stores(p.Field("libs/db", bt+".size")) {
+				if s.Fn == fn && ir.Render(s.Val) == "0" {
+					zero = true
+				}
+			}
+			found := false
+			if zero {
+				isZero := func(in ssa.Instruction) bool {
+					st, ok := in.(*ssa.Store)
+					return ok && strings.HasSuffix(ir.Render(st.Addr), ".size") && ir.Render(st.Val) == "0"
+				}
+				found, _, _ = ir.FindPath(ir.PathQuery{From: ir.Entry(fn), Target: ir.IsReturn, Avoid: isZero})
+			}
+			r.Check("K5", "batch-reset/db.(*"+bt+").Reset/size-zeroed", p.Pos(fn.Pos()), zero && !found, "Reset sets size = 0 on every path, like its siblings")
+		}
+		r.Check("K5", "batch-reset/sites", "-", n >= 4, fmt.Sprintf("%d Reset methods inspected", n))
+	}
+
+	// ---- cpDecr: the exclusive lower neighbour of a key, nil on underflow ------------------------------------
+	// prefixDB.ReverseIterator computes its lower bound with cpDecr(prefix); for an all-zero prefix there
+	// is no smaller key of the same length: nil ("from the very beginning"), never FF..FF
+	{
+		cd := p.Func("libs/db", "cpDecr")
+		nNil, nOther := 0, 0
+		for _, rt := range ir.Returns(cd) {
+			v := ir.AbstractResult(rt.Results[0])
+			if v == "nil" {
+				nNil++
+				continue
+			}
+			nOther++
+			// a non-nil result is returned only right after decrementing a byte that was > 0
+			r.Check("K11", "db.cpDecr/non-nil-only-after-a-decrement", p.InstrPos(rt.Instr), ir.HasFact(ir.FactsAt(rt.Instr), "lt(0,*[*])"), "the decremented copy is returned under ret[i] > 0")
+		}
+		r.Check("K11", "db.cpDecr/underflow-is-nil", p.Pos(cd.Pos()), nNil >= 1 && nOther == 1, fmt.Sprintf("all-zero input returns nil (%d nil returns, %d others)", nNil, nOther))
+	}
+
 	// ---- a batch owns what it queues ------------------------------------------------------------------------
 	// Between Set/Delete and Write the caller may reuse its key (and value) buffer: every batch either
 	// copies the bytes itself or hands them to a backend call that does (goleveldb Batch.Put/Delete,
@@ -517,6 +565,7 @@ func C19(p *ir.Program, r *report.R) {
 	// argument) — is never stored, appended or passed on otherwise.
 	{
 		copying := []string{"db.cp", "db.cpWithoutNil", "db.dbIndex", "leveldb.Batch.Put", "leveldb.Batch.Delete", "snappy.Encode"}
+		ownsEff := ir.DefaultEffects(p)
 		n := 0
 		for _, bt := range []string{"memBatch", "goLevelDBBatch", "boltBatch", "badgerBatch", "prefixBatch"} {
 			for _, m := range []string{"Set", "Delete"} {
@@ -563,6 +612,27 @@ func C19(p *ir.Program, r *report.R) {
 							// a prefixed batch forwards to the batch it wraps (checked on its own)
 							if strings.HasSuffix(name, "db.Batch.Set") || strings.HasSuffix(name, "db.Batch.Delete") {
 								okc = true
+							}
+							// a function of the package: what it does with the slice is followed inside it, and its
+							// result is an alias unless everything it returns is freshly allocated
+							if callee := x.Call.StaticCallee(); !okc && callee != nil && callee.Blocks != nil && callee.Pkg != nil && ir.RelPkg(callee.Pkg.Pkg) == "libs/db" && len(seen) < 200 {
+								for i, a := range x.Call.Args {
+									if a == v && i < len(callee.Params) {
+										follow(callee.Params[i], what+" (inside "+callee.Name()+")")
+									}
+								}
+								allFresh := true
+								for _, rt := range ir.Returns(callee) {
+									for _, rv := range rt.Results {
+										if _, isSlice := rv.Type().Underlying().(*types.Slice); isSlice && !ownsEff.Fresh(rv) {
+											allFresh = false
+										}
+									}
+								}
+								if !allFresh {
+									follow(x, what+" (returned by "+callee.Name()+")")
+								}
+								continue
 							}
 							if !okc {
 								bad = append(bad, fmt.Sprintf("%s: %s passed to %s", p.InstrPos(x), what, name))
@@ -688,3 +758,29 @@ func C19(p *ir.Program, r *report.R) {
 }
 
 var _ = report.Discharged
+
+// prefixPlusKey: v is `append(<copy of prefix>, key...)`, written in place or returned by a function
+// of the package (read with the call's arguments in place of its parameters).
+func prefixPlusKey(v ssa.Value, prefix string) bool {
+	is := func(s string) bool {
+		return strings.HasPrefix(s, "append(") && strings.Contains(s, prefix) && strings.HasSuffix(s, ",key)") && !strings.Contains(s, "[")
+	}
+	if is(ir.Render(v)) {
+		return true
+	}
+	call, ok := v.(*ssa.Call)
+	if !ok {
+		return false
+	}
+	callee := call.Call.StaticCallee()
+	if callee == nil || callee.Blocks == nil || callee.Pkg == nil || ir.RelPkg(callee.Pkg.Pkg) != "libs/db" {
+		return false
+	}
+	rets := ir.Returns(callee)
+	for _, rt := range rets {
+		if len(rt.Results) != 1 || !is(ir.RenderAt(call, rt.Results[0])) {
+			return false
+		}
+	}
+	return len(rets) > 0
+}
